@@ -21,7 +21,11 @@ RULE = ("pwl_calibration_fn: units 1-3, 2-6 keypoints, batch 1-4, monotonicity n
         "input_dim / units size, non-broadcastable scaling_parameters: ValueError demanded and - except the last - "
         "compared with the model's None; one of each kind in every run), scaling none / every broadcast form / "
         "exp-transform / fixed / learned_shared / learned_per_input (NonNeg applied), batches that are chains ordered "
-        "in one coordinate at a time. Non-trivial = accepted call; distinct = distinct desc.")
+        "in one coordinate at a time; 10 cdf_fn calls with chains of 6-12 points (classes *_long / *_long_perex) and, for every "
+        "cdf_fn call with non-negative scaling, the same call with all inputs raised by a fixed non-negative pattern "
+        "(monotone per example with its own location parameters); 10 pwl_calibration_fn calls with inputs of batch "
+        "size 1 against parameter tensors of batch size B (classes *_xb1). Non-trivial = accepted call; distinct = "
+        "distinct desc.")
 TRUSTED = ["model: Model/CondPWL.v, Model/CDF.v (hand-written from conditional_pwl_calibration.py, conditional_cdf.py, "
            "cdf_layer.py); softmax, sigmoid, exp, log are ORACLES: the theorems assume only softmax: same length, "
            "entries >= 0, sum 1 (strict positivity only where stated); sigmoid: values in [0,1], non-decreasing; "
@@ -252,7 +256,7 @@ def chain(rng, B, D):
 CDF_BAD = ["act", "red", "units_sf", "dim_sf", "loc_dim", "loc_uf", "scal_bcast"]
 
 
-def gen_cdf(rng, kind, bad=None):
+def gen_cdf(rng, kind, bad=None, long=False):
   act = rng.choice(["relu6", "relu6", "sigmoid"])
   red = rng.choice(["mean", "geometric_mean", "none"])
   sf = rng.choice([1, 1, 1, 2, 3])
@@ -273,6 +277,8 @@ def gen_cdf(rng, kind, bad=None):
     units, D = (odd, good) if bad == "units_sf" else (good, odd)
   F = rng.randint(1, 4)
   B = rng.randint(2, 4)
+  if long:   # long monotone chains (classes *_long; appended after the other cases: their random stream is unchanged)
+    B = rng.randint(6, 12)
   uf = units // sf
   pclass = rng.choice(["moderate", "moderate", "moderate", "ties", "large"])
   def pv():
@@ -283,6 +289,8 @@ def gen_cdf(rng, kind, bad=None):
     return tfimpl.dy(rng, -2, 2)
   xs = chain(rng, B, D)
   d = dict(kind=kind, act=act, red=red, sf=sf, units=units, D=D, F=F, B=B, pclass=pclass, xs=xs)
+  if long:
+    d["long"] = True
   if kind == "cdf_fn":
     d["bad"] = bad
     d["dtype"] = rng.choice(["f32", "f64"])
@@ -299,6 +307,8 @@ def gen_cdf(rng, kind, bad=None):
     d["loc"] = loc
     d["shared"] = shared
     smode = rng.choice(["none", "nonneg", "nonneg", "exp", "neg"])
+    if long and smode == "neg":
+      smode = "nonneg"
     if bad == "scal_bcast" and smode == "none":
       smode = "nonneg"
     d["smode"] = smode
@@ -355,6 +365,16 @@ def gen_descs(ctx):
     out.append(gen_cdf(rng, "cdf_fn", bad=bad))
   for i in range(ctx.n(60, 1200)):
     out.append(gen_cdf(rng, "cdf_layer"))
+  # long chains (6-12 ordered points) for the monotonicity clause of cdf_fn; valid calls, non-negative scaling
+  for i in range(ctx.n(10, 200)):
+    out.append(gen_cdf(rng, "cdf_fn", bad="", long=True))
+  # inputs of batch size 1 broadcast against parameter tensors of batch size B (the "1 or batch_size" reading of
+  # C15_pwl_fn_total for the inputs axis; classes *_xb1)
+  for i in range(ctx.n(10, 200)):
+    d = gen_pwl(rng, "moderate" if i % 5 else "large", bad="")
+    d["inputs"] = d["inputs"][:1]
+    d["xb1"] = True
+    out.append(d)
   return out
 
 
@@ -458,6 +478,24 @@ def slice_row0(t):
   return None if t is None else [t[0]]
 
 
+def _np_sigmoid(p):
+  return 0.5 * (1.0 + math.tanh(0.5 * float(p)))
+
+
+def derived_missing_check(d, kop, b, u, got, eps):
+  """The docstring's value of the derived missing output, computed from the RAW parameters independently of the
+  implementation and of the model: keypoint_output_min + sigmoid(last output parameter of the (b, u) slice) * range."""
+  o3 = _to3(np.array(kop, dtype=np.float64))
+  p = o3[b if o3.shape[0] > 1 else 0, u if o3.shape[1] > 1 else 0, -1]
+  rng_out = d["out_max"] - d["out_min"]
+  want = d["out_min"] + _np_sigmoid(p) * rng_out
+  tol = eps + (1e-6 if d["dtype"] == "f32" else 1e-13) * abs(rng_out)
+  if abs(got - want) > tol:
+    return ("derived missing output is %r, not keypoint_output_min + sigmoid(last output parameter %r) * "
+            "(keypoint_output_max - keypoint_output_min) = %r (example %d, unit %d)" % (float(got), float(p), want, b, u))
+  return None
+
+
 def pwl_grid_probe(tf, fn, d, eager):
   """Implementation-side predicates on a grid, parameters of batch row 0."""
   rng_in = d["in_max"] - d["in_min"]
@@ -538,6 +576,10 @@ def pwl_grid_probe(tf, fn, d, eager):
           return "missing input maps to %r, not missing_output_value %r" % (m_out[u], d["missing_out"])
       elif m_out[u] < lo - eps or m_out[u] > hi + eps:
         return "derived missing output %r outside the bounds" % m_out[u]
+      else:
+        bad = derived_missing_check(d, slice_row0(d["kop"]), 0, u, m_out[u], eps)
+        if bad:
+          return bad
   return None
 
 
@@ -614,12 +656,16 @@ def eval_pwl(tf, tfl, d):
                                      "rej" if exc else "ok")
   if d["sizeclass"] != "ok":
     klass += "_" + d["sizeclass"]
+  if d.get("xb1"):
+    klass += "_xb1"
   tol = dtol = 0.0
   if fail is None and exc is None:
     units = d["units"]
     Bout = out.shape[0]
-    if out.shape[1:] != (units,):
-      fail = "output shape %r, expected (batch, %d)" % (out.shape, units)
+    # C15_pwl_fn_shape: (largest batch axis of inputs / both parameter tensors, units)
+    Bdoc = max(len(d["inputs"]), len(d["kop"]), 1 if d["kip"] is None else len(d["kip"]))
+    if out.shape != (Bdoc, units):
+      fail = "output shape %r, expected (broadcast batch, units) = %r" % (out.shape, (Bdoc, units))
     elif not (np.all(np.isfinite(out)) and np.all(np.isfinite(deltas)) and np.all(np.isfinite(kos))):
       fail = "non-finite output or derived parameters: %r" % out.tolist()
     else:
@@ -638,6 +684,8 @@ def eval_pwl(tf, tfl, d):
               fail = "missing input maps to %r, not missing_output_value %r" % (out[b, u], d["missing_out"])
           elif out[b, u] < d["out_min"] - eps or out[b, u] > d["out_max"] + eps:
             fail = "output %r outside [%r, %r] at x=%r" % (out[b, u], d["out_min"], d["out_max"], X[b, u])
+          elif is_missing and fail is None:
+            fail = derived_missing_check(d, d["kop"], b, u, out[b, u], eps)
       if fail is None:
         try:
           fail = pwl_grid_probe(tf, fn, d, eager)
@@ -732,12 +780,39 @@ def cdf_preds(d, out, eps_gm, comparable, nonneg):
   hi = 1.0 + (eps_gm if d["red"] == "geometric_mean" else 0.0)
   if out.min() < -t or out.max() > hi * (1 + t) + t:
     return "output outside [0, %r]: min %r max %r" % (hi, out.min(), out.max())
+  # geometric mean: the documented range is [eps, 1 + eps] (C15_cdf_range_geometric): exp(mean(log(cell + eps))) with
+  # every cell >= 0 is >= eps up to the rounding of log / exp (relative, |log eps| <= 18.5)
+  if d["red"] == "geometric_mean":
+    rel = 1e-4 if d["dtype"] == "f32" else 1e-10
+    if out.min() < eps_gm * (1.0 - rel):
+      return "geometric_mean output %r below the documented lower bound eps = %r" % (float(out.min()), eps_gm)
   if comparable and nonneg:
     run = np.maximum.accumulate(out, axis=0)
     if np.any(out < run - t):
       b = int(np.argmax((out < run - t).reshape(out.shape[0], -1).any(axis=1)))
       return "not non-decreasing along the ordered batch: example %d %r below an earlier %r" % (
           b, out[b].tolist(), run[b].tolist())
+  return None
+
+
+def cdf_raised_probe(tf, fn, d, xs, loc, scal, kw, out):
+  """Monotonicity for EVERY example with its OWN location parameters (also when they vary over the batch, where the
+  ordered-batch chain does not apply): the same call with every input raised by a fixed non-negative dyadic pattern
+  (a function of the position only, so the desc determines it) must not give a smaller output anywhere."""
+  B, D = xs.shape
+  pat = [0.0, 0.25, 1.0, 4.0, 0.0, 0.5]
+  inc = np.array([[pat[(3 * b + i) % len(pat)] for i in range(D)] for b in range(B)], dtype=xs.dtype)
+  try:
+    out2 = np.array(fn(tf.constant(xs + inc), tf.constant(loc), None if scal is None else tf.constant(scal),
+                       reduction=d["red"], **kw).numpy(), dtype=np.float64)
+  except Exception as e:  # pylint: disable=broad-except
+    return "cdf_fn raised %s on the raised inputs: %s" % (type(e).__name__, str(e)[-200:])
+  t = 2e-6 if d["dtype"] == "f32" else 1e-12
+  if out2.shape != out.shape or np.any(out2 < out - t):
+    bad = np.argwhere(out2 < out - t)
+    b = int(bad[0][0]) if len(bad) else 0
+    return "not non-decreasing in the inputs (own location parameters of example %d): f(x)=%r, f(x + %r)=%r" % (
+        b, out[b].tolist(), inc[b].tolist(), out2[b].tolist())
   return None
 
 
@@ -788,6 +863,8 @@ def eval_cdf_fn(tf, tfl, d):
           "rejects" if verify_raised else "accepts", "invalid" if bad else "documented", bad or "valid")
   klass = "cdffn_%s_%s_sf%d_%s_%s" % (d["act"] if d["act"] in ACT else "badact", d["red"] if d["red"] in RED else "badred",
                                       d["sf"], d["smode"], d["pclass"])
+  if d.get("long"):
+    klass += "_long" if d["shared"] else "_long_perex"
   if bad:
     klass = "cdffn_rejected_%s%s" % (bad, "" if exc == "ValueError" else "_NOT_REJECTED")
   coq = None
@@ -807,6 +884,8 @@ def eval_cdf_fn(tf, tfl, d):
       fail = cdf_preds(d, out, 1e-8, d["shared"], nonneg)
       if fail is None and d["smode"] == "exp" and np.any(dscal <= 0):
         fail = "exp-transformed scaling is not positive"
+      if fail is None and nonneg:
+        fail = cdf_raised_probe(tf, fn, d, xs, loc, scal, kw, out)
     if fail is None and d["pclass"] != "large":
       eff = None
       expkeys = None
